@@ -62,6 +62,7 @@ type Obligation struct {
 type Decision struct {
 	Choice  int
 	Checked bool
+	Case    bool // taken by vCase (replayed natively)
 }
 
 // Exec is the state of one symbolic path.
